@@ -359,3 +359,15 @@ def duplicate_groups(root: Any) -> int:
 def clone_node(n: Any) -> Any:
     """A distinct object structurally equal to *n* (same children objects)."""
     return _construct_like(n, dict(field_items(n)))
+
+
+def conflated_groups(root: Any) -> int:
+    """Number of groups of DISTINCT objects (with different fingerprints or not) that pytato's
+    own == / hash treat as one node (e.g. x + 0.0 and x + -0.0)."""
+    byeq: dict[Any, int] = {}
+    for n in walk(root):
+        try:
+            byeq[n] = byeq.get(n, 0) + 1
+        except Exception:  # noqa: BLE001
+            continue
+    return sum(1 for v in byeq.values() if v > 1)
